@@ -6,7 +6,7 @@ cd /verif
 OUT="$1"; PAR="${2:-2}"; PFX="${3:-}"
 : > "$OUT"
 one() {
-  d="$1"; n=$(basename "$d"); p=$(python3 -c "import json;print(json.load(open('$d/meta.json'))['breaks_property'])")
+  d="/verif/${1%/}"; n=$(basename "$d"); p=$(python3 -c "import json;print(json.load(open('$d/meta.json'))['breaks_property'])")
   R=/var/tmp/mrepo.$n; rm -rf "$R"; rsync -a --exclude .git --exclude '*.test' /repo/ "$R"/
   if ! ( cd "$R" && git apply "$d/patch.diff" 2>/dev/null ); then echo "$n $p does-not-apply" >> "$OUT"; rm -rf "$R"; return; fi
   out=$(VERIF_REPO="$R" VERIF_EVIDENCE_DIR=/var/tmp/mev.$n ./vcheck "$p" --tier quick 2>&1); rc=$?
